@@ -322,7 +322,7 @@ func runReceiver(c *rcase, out *vh.LineWriter, st *vh.Stats) {
 		if res == "panic" {
 			// the receiver process would be gone: the case ends here
 			out.Printf("%s %d panic\n", c.id, i)
-			mon.afterPanic(i, o)
+			mon.afterPanic(i, o, trBefore)
 			break
 		}
 		after := observeFS(fs)
